@@ -4,8 +4,9 @@ C18 — Server lifecycle operations are safe in every order.
 real run : (mode "async") the real AsyncTCPNetworkServer / AsyncUDPNetworkServer on loopback sockets, on a deterministic
            event loop; several caller tasks issue serve_forever / shutdown / server_close / probes / task.cancel() /
            client echoes, released at harness-chosen loop turns (vlib/c18_async.py);
-           (mode "threads") the real StandaloneTCPNetworkServer / StandaloneUDPNetworkServer with real OS threads, every
-           blocking call under a watchdog, run in worker processes (vlib/c18_threads.py, vlib/c18_pool.py).
+           (mode "threads") the real StandaloneTCPNetworkServer / StandaloneUDPNetworkServer with real OS threads (plain
+           threads and NetworkServerThread start()/join()), every blocking call under a watchdog, run in worker processes
+           (vlib/c18_threads.py, vlib/c18_pool.py).
 model run: the observed linearisation (which call started / returned when, with what outcome, the is_serving /
            is_listening flags seen from outside, quiescence points) is given to the Lean transition systems
            EasyNet.Life.A / EasyNet.Life.S (endriver, `life-async` / `life-sa`), which search for a model execution
@@ -56,7 +57,9 @@ ASSUMPTIONS = [
 ]
 RULE = (
     "case = history: 1-4 callers x <= 4 calls each from {serve_forever, shutdown, server_close, cancel of a serve task, "
-    "is_serving/is_listening probe, client echo, persistent client} x schedule (which caller moves at which loop turn, "
+    "is_serving/is_listening probe, client echo, persistent client; async also server_activate / `async with server` "
+    "(2-3 overlapping activations, activation lock contended, oracle only); threads also NetworkServerThread start / join "
+    "and a rendez-vous in the start-up window} x schedule (which caller moves at which loop turn, "
     "sleep(0) hops; for threads: barriers and PRNG jitters) x TCP/UDP x suspension points inside service_init and the "
     "listener factory; non-trivial = class of (outcomes seen, calls landing inside start-up / tear-down, restarts, clients); "
     "distinct by case digest"
